@@ -834,7 +834,7 @@ where
             header.fairness_constraint_count,
         ];
 
-        self.code = (header.input_count + 1) * 2;
+        self.code = header.input_count.wrapping_add(1).wrapping_mul(2);
 
         let mut fields = fields.as_slice();
 
@@ -872,7 +872,7 @@ where
                 self.writer.write_all_defer_err(b"\n");
             }
         }
-        self.code += 2;
+        self.code = self.code.wrapping_add(2);
     }
 
     pub fn write_count(&mut self, count: usize) {
@@ -892,7 +892,7 @@ where
 
         self.write_binary_uint(delta_0);
         self.write_binary_uint(delta_1);
-        self.code += 2;
+        self.code = self.code.wrapping_add(2);
     }
 
     fn write_binary_uint(&mut self, mut code: usize) {
